@@ -522,6 +522,53 @@ func runC03(c *ctx) {
 			c03Check(c, fmt.Sprintf("set%d", i), set, i%3 == 0)
 		}
 	}
+	// the NAME of a token must not matter: the same pairs and sets with pattern definitions renamed to names that mean
+	// something elsewhere in the tool (the terminals the generated lexer discards, the built-in token names ...)
+	special := []string{"WS", "EOL", "COMMENT", "ERR", "EOF", "IDENT", "TOKEN", "STRING", "REGEX", "START"}
+	rename := func(set []poolDef, rr *rng, howMany int) []poolDef {
+		out := append([]poolDef{}, set...)
+		names := shuffled(rr, special)
+		k := 0
+		for i := range out {
+			if k < howMany && (out[i].IsRegex || out[i].Predef != "") {
+				out[i].Name = names[k]
+				k++
+			}
+		}
+		return out
+	}
+	rn := c.rng("renamed")
+	var patterns []poolDef
+	for _, d := range pool {
+		if d.IsRegex || d.Predef != "" {
+			patterns = append(patterns, d)
+		}
+	}
+	for i := range patterns {
+		for j := i + 1; j < len(patterns); j++ {
+			if !c.mineIdx(n) {
+				n++
+				continue
+			}
+			n++
+			c03Check(c, fmt.Sprintf("renamed-pair%d.%d", i, j), rename([]poolDef{patterns[i], patterns[j]}, rn, 1+(i+j)%2), false)
+		}
+	}
+	for i := 0; i < c.n(1500, 60000); i++ {
+		set := shuffled(rn, pool)[:2+rn.intn(4)]
+		seen := map[string]bool{}
+		dup := false
+		for _, d := range set {
+			dup = dup || seen[d.Name]
+			seen[d.Name] = true
+		}
+		if dup {
+			continue
+		}
+		if c.mine() {
+			c03Check(c, fmt.Sprintf("renamed-set%d", i), rename(set, rn, 1+rn.intn(2)), i%3 == 0)
+		}
+	}
 }
 
 var reBigCount = regexp.MustCompile(`\{(\d+)`)
